@@ -675,7 +675,7 @@ class CanLoadCacheFull(_Bfc):
     self_schema = DISC + "#full"
     params = {"input_data": DATA}
     returns = TBool
-    modifies = ("self.io", "heap:arr", "self.cache._last_accessed_index")
+    modifies = ("self.io", "heap:arr")
     loops = {0: LoopSpec(anchor="cache_output.items()", modifies=("cache_output", "heap:arr", "ghost:" + WRITTEN), inv=_convert_inv, local_types={"output_name": TStr, "value": ARR})}
 
     def v(self, c, which="old"):
@@ -713,6 +713,8 @@ class CanLoadCacheFull(_Bfc):
                  d1.has(s) == z3.Or(inp.has(s), v0.dmem(i, G_OUT)[s]),
                  z3.Implies(d1.has(s), h1[d1.get(s)] == z3.If(v0.dmem(i, G_OUT)[s], conv_value(s, v0.heap[v0.dvals(i, G_OUT)[s]]), v0.heap[inp.get(s)]))))), v0.cin[i])),
             ("miss:local-data-unchanged", z3.Implies(z3.Not(c.result), same_dict_obj(d1, d0))),
+            ("input-untouched", same_dict_obj(c.new.input_data, inp)),
+            *preserved(c),
         ]
 
 
